@@ -95,7 +95,7 @@ def _assume_domain(ctx: Ctx, cfg: dict, names, cells, s: Script, tol, min_iter, 
         ctx.assume(z3.And(offset.t >= -L - 1, offset.t <= L + 1), f'-L-1 <= offset <= L+1 (L={L})')
     for p in range(1, B + 1):
         if isinstance(s.kind[p], SInt):
-            ctx.assume(z3.And(s.kind[p].t >= 0, s.kind[p].t <= 2), f'fault kind of pass {p} in {{none,warn,raise}}')
+            ctx.assume(z3.And(s.kind[p].t >= 0, s.kind[p].t <= 3), f'fault kind of pass {p} in {{none,warn,raise,raise SolutionError}}')
             ctx.assume(z3.And(s.fs[p].t >= 0, s.fs[p].t <= max(N, 1) - 1), f'fault statement of pass {p} in range')
     for h in (s.kb, s.ka):
         if isinstance(h, SInt):
